@@ -520,10 +520,11 @@ def correspondence(ck: Ck, side: dict, subjects: list[Subject], work: Path) -> N
     if missing:
         ck.tie_broken.append(f'translator misses run-time dependencies {sorted(missing)}')
     # model evaluation: data 1 = original bytes, 0 = b'', 2 = rewritten; parsed value = "some owned lump was non-empty";
-    # the reader of a view in `bad` raises (those are the views whose own reader was seen raising on this file)
+    # the reader of a view in `bad` raises unless its main lump has been emptied (those are the views whose own reader was
+    # seen raising on this file)
     pre = '''Import ListNotations.
 Definition rdB (bad : list nat) (v : nat) (ds : list nat) : option bool :=
-  if mem v bad then None else Some (existsb (fun d => negb (Nat.eqb d 0)) ds).
+  if mem v bad && negb (Nat.eqb (hd 0 ds) 0) then None else Some (existsb (fun d => negb (Nat.eqb d 0)) ds).
 Definition wrB (g : graph) (v : nat) (p : bool) : list nat := map (fun _ => if p then 2 else 0) (own g v).
 Definition obs (g : graph) (lumps : list nat) (s : state nat bool) : list (list nat) :=
   [filter (fun v => match cache s v with Some _ => true | None => false end) (seq 0 (length g));
@@ -726,6 +727,12 @@ def run(ck: Ck) -> None:
         if (kind, subj.name) in seen_cause:
             found[seen_cause[kind, subj.name]]['n'] += 1
             return
+        if len(found) >= 10:        # enough distinct shrunk findings: count the rest per kind, unshrunk
+            key = kind.split(':')[0] + '|further-cases-not-shrunk'
+            found.setdefault(key, {'kind': kind, 'detail': detail, 'input': subj.desc, 'cycles': cycles, 'original_cycles': cycles,
+                                   'n': 0, 'how': 'checks.c10.replay'})['n'] += 1
+            seen_cause[kind, subj.name] = key
+            return
         memo_t: dict = {}
 
         def fails_with(sub: Subject, cyc) -> bool:
@@ -794,10 +801,10 @@ def run(ck: Ck) -> None:
             cyc = [rng.sample(VIEWS, rng.choice([2, 3, 5, 9])) + [rng.choice(failing)] for _ in range(rng.choice([1, 1, 2]))]
             rng.shuffle(cyc[0])
             attempt(s, opts, cyc)
-    for a, b in itertools.permutations(VIEWS, 2):
-        if a < b or ck.budget(0, 1):
+    for k, (a, b) in enumerate(itertools.permutations(VIEWS, 2)):
+        if (a < b and k % 2 == 0) or ck.budget(0, 1):
             attempt(default, synth_subjects[1][0], [[a, b]])
-    nrand = ck.budget(100, 3000)
+    nrand = ck.budget(80, 3000)
     for i in range(nrand):
         opts, s = synth_subjects[rng.randrange(len(synth_subjects))]
         ncyc = rng.choice([1, 1, 1, 2, 3])
@@ -809,7 +816,7 @@ def run(ck: Ck) -> None:
     t0 = time.time()
     for subj in subjects:       # the sample map (large entity lump: fewer trials)
         attempt(subj, None, [[]])
-        for v in VIEWS:
+        for v in (VIEWS if ck.budget(0, 1) else rng.sample(VIEWS, 9)):
             attempt(subj, None, [[v]])
         attempt(subj, None, [list(VIEWS)])
         for i in range(ck.budget(2, 60)):
@@ -826,6 +833,11 @@ def run(ck: Ck) -> None:
             attempt(s, opts, [rng.sample(VIEWS, rng.choice([1, 2, 3, 5, 9, 14, 21])) for _ in range(rng.choice([1, 1, 2, 3]))])
             if found:
                 break
+    if inst.get('shape_ok_bsp_shape') is False and any(f['kind'].split(':')[0] in ('failed-look-changed-lump', 'raw-changed-unparsable',
+                                                                                 'cache-not-empty-after-save') for f in found.values()):
+        # outside the shapes the model was validated for (its abstraction of "the reader raises" is not data-exact there):
+        # the concrete findings above are the explanation
+        ck.explain('correspondence:get-save-model')
     for key, f in found.items():
         ck.violation(key, f'{f["kind"]}: {f["detail"]}', {k: v for k, v in f.items() if k != 'n'})
     ck.extra['violation_keys'] = sorted(found)
